@@ -175,6 +175,7 @@ type enc struct {
 	ufDecls []string
 	heapStore heapStoreT
 	mapAlias map[string][]*Loc
+	rePats  map[string]string // resub_<hash> -> Go regular expression
 	awbDepth int
 	awbSeen  map[ssa.Value]bool
 	recordCommute bool
